@@ -493,6 +493,8 @@ type FuncSpec struct {
 	Flags        map[string]string // pure, nonblocking, trusted, assumed, checknil ...
 	Uses         []string          // lemma names
 	UsesAt       []*LemmaUse
+	ClosureInv   []*Clause // function literals: invariant over captured variables, established where the literal is created,
+	// assumed at every call of it and re-established at every return
 	Props        []string          // property ids this function serves
 	File         string
 	Line         int
@@ -569,7 +571,7 @@ type SpecFile struct {
 
 var clauseKeywords = map[string]bool{
 	"requires": true, "ensures": true, "modifies": true, "invariant": true, "loop": true,
-	"iter": true, "exit": true, "decreases": true, "emits": true, "recvinv": true, "flag": true, "use": true, "prop": true, "induction": true, "pattern": true,
+	"iter": true, "exit": true, "closureinv": true, "decreases": true, "emits": true, "recvinv": true, "flag": true, "use": true, "prop": true, "induction": true, "pattern": true,
 	"field": true, "assumed": true, "pure": true, "end": true,
 }
 var headerKeywords = map[string]bool{"func": true, "type": true, "spec": true, "lemma": true, "ghost": true, "axiom": true, "package": true}
@@ -692,6 +694,15 @@ func parseSpecText(path, pkgPath string, lines []string, lineNos []int) (*SpecFi
 			curL = &Lemma{Name: strings.TrimSpace(rest[:op]), PkgPath: pkgPath, File: path, Line: it.line}
 			curL.Params = parseParams(rest[op+1 : cl])
 			sf.Lemmas = append(sf.Lemmas, curL)
+		case "closureinv":
+			if curF == nil {
+				return nil, fmt.Errorf("%s:%d: closureinv outside func", path, it.line)
+			}
+			c, err := mkClause(kw, rest, it.line)
+			if err != nil {
+				return nil, err
+			}
+			curF.ClosureInv = append(curF.ClosureInv, c)
 		case "requires", "ensures":
 			c, err := mkClause(kw, rest, it.line)
 			if err != nil {
